@@ -562,16 +562,85 @@ func initShadows(t *ast.IfStmt, rest []ast.Stmt) bool {
 			names[id.Name] = true
 		}
 	}
-	hit := false
-	for _, s := range rest {
-		ast.Inspect(s, func(m ast.Node) bool {
+	return mentionsOuter(rest, names)
+}
+
+// mentionsOuter: some statement of the list mentions one of the names in a position where it
+// does not refer to a variable the list itself declares (`if n := …` scopes n over that
+// statement, `n := …` over the rest of the list; their right-hand sides are evaluated outside).
+func mentionsOuter(list []ast.Stmt, names map[string]bool) bool {
+	mention := func(n ast.Node) bool {
+		hit := false
+		if n == nil {
+			return false
+		}
+		ast.Inspect(n, func(m ast.Node) bool {
 			if id, ok := m.(*ast.Ident); ok && names[id.Name] {
 				hit = true
 			}
 			return !hit
 		})
+		return hit
 	}
-	return hit
+	without := func(as *ast.AssignStmt) map[string]bool {
+		rest := map[string]bool{}
+		for k := range names {
+			rest[k] = true
+		}
+		for _, l := range as.Lhs {
+			if id, ok := l.(*ast.Ident); ok {
+				delete(rest, id.Name)
+			}
+		}
+		return rest
+	}
+	for i, st := range list {
+		switch t := st.(type) {
+		case *ast.IfStmt:
+			if as, ok := t.Init.(*ast.AssignStmt); ok && as.Tok == token.DEFINE {
+				for _, r := range as.Rhs {
+					if mention(r) {
+						return true
+					}
+				}
+				inner := without(as)
+				if len(inner) == 0 {
+					continue
+				}
+				var parts []ast.Stmt
+				parts = append(parts, &ast.ExprStmt{X: t.Cond}, t.Body)
+				if t.Else != nil {
+					parts = append(parts, t.Else)
+				}
+				if mentionsOuter(parts, inner) {
+					return true
+				}
+				continue
+			}
+		case *ast.AssignStmt:
+			if t.Tok == token.DEFINE {
+				for _, r := range t.Rhs {
+					if mention(r) {
+						return true
+					}
+				}
+				inner := without(t)
+				if len(inner) == 0 {
+					return false
+				}
+				return mentionsOuter(list[i+1:], inner)
+			}
+		case *ast.BlockStmt:
+			if mentionsOuter(t.List, names) {
+				return true
+			}
+			continue
+		}
+		if mention(st) {
+			return true
+		}
+	}
+	return false
 }
 
 // conv emits a statement list of a callee body with returns turned into assignments to lhs
